@@ -34,6 +34,8 @@ pub struct RustDocument {
     /// how deep inside their own components the references sit that are being followed: all those levels are on the
     /// stack at once
     resolving_nesting: usize,
+    /// the files that are being read at the moment: the start file, a file it imports, a file that one imports, ...
+    files_being_read: usize,
 }
 
 /// The kind of global component a reference is looking for; types and elements have separate symbol spaces in XSD
@@ -95,7 +97,12 @@ impl RustDocument {
             too_deep: std::mem::take(&mut self.too_deep),
         };
         collect_namespaces_on_node(doc.root_element(), self);
+        self.files_being_read += 1;
         scope
+    }
+
+    pub(crate) fn files_being_read(&self) -> usize {
+        self.files_being_read
     }
 
     /// Return to the file that was being read before `enter_file`.
@@ -105,6 +112,7 @@ impl RustDocument {
         self.resolving = scope.resolving;
         self.resolved = scope.resolved;
         self.too_deep = scope.too_deep;
+        self.files_being_read -= 1;
     }
 
     pub fn empty() -> Self {
@@ -123,6 +131,7 @@ impl RustDocument {
             too_deep: std::collections::HashSet::new(),
             chain_cut: false,
             resolving_nesting: 0,
+            files_being_read: 0,
         }
     }
 
